@@ -150,6 +150,14 @@ Definition initial_connect (c : kcfg) (now : Z) : option Z :=
               | None => now end in
   if kill_passed c now1 then None else Some now1.
 
+(* the SPAWN path (LoadContext, job id 0 -> connectContextInner with the parent's infoSync block):
+   readDeviceInfo REPLACES jitter, sleep, kill date (0 = none) and work hours (empty = none) by the
+   parent's; there is no work-hours sleep on this path; the gate then uses the kill date IN FORCE,
+   i.e. the inherited one.  inh = the inherited kill date *)
+Definition absorb_kill (c : kcfg) (inh : option Z) : kcfg := mkK (k_sleep c) inh (k_work c).
+Definition spawn_connect (c : kcfg) (inh : option Z) (now : Z) : option Z :=
+  if kill_passed (absorb_kill c inh) now then None else Some now.
+
 (* the whole client: first script item = the initial Connect (only i_dur / i_fail are used) *)
 Definition client (recheck : bool) (c : kcfg) (script : list item) (t0 : Z) : list (Z * bool) :=
   match script with
@@ -231,6 +239,8 @@ Inductive case :=
 (* a Profile swap in the real listen loop: settings before, the Profile's answers, settings
    observed after, the draws of the next wait() and the delay it computed *)
 | CSwap (old : settings) (p : pvals) (obs : settings) (gate d sign delay : Z)
+(* the spawn path: the Profile's settings, the inherited kill date, the instant, the Connect instants observed *)
+| CSpawn (c : kcfg) (inh : option Z) (now : Z) (obs : list Z)
 (* real time: a ticker armed with `sleep`, then a contact of `contact` ns during which nobody
    receives, then wait() with delay `sleep`; gaps = the measured ns between the end of an attempt and
    the start of the next.  Only "not (much) earlier than the model says" is compared. *)
@@ -264,6 +274,11 @@ Definition check (c : case) : bool :=
   | CWait c dl now cl now' cl' =>
       let '(n2, c2) := wait_step impl_recheck c dl now cl in (n2 =? now') && Bool.eqb c2 cl'
   | CKill c t0 sc obs => evs_eqb (client impl_recheck c sc t0) obs
+  | CSpawn c inh now obs =>
+      match spawn_connect c inh now with
+      | None => match obs with [] => true | _ => false end
+      | Some t => match obs with [t'] => t =? t' | _ => false end
+      end
   | CTick sl ct gaps =>
       let now := sl + ct in
       let m := wait_wakes impl_drain (mkT false sl sl) now sl - now in
